@@ -1261,6 +1261,7 @@ static FJ_ALWAYS_INLINE int run_paged_loop_impl(MemoryObject* self, PyObject* re
     uint64_t ip = start_ip, ops = 0, ring_writes = 0;
     uint64_t word_address, op_offset, op_slot, f, j;
     uint64_t* op_words; /* the hot lane's cached words; NULL marks the slow lanes */
+    uint64_t op_valid_end = 0; /* the hot lane's fast valid range end - a copy: the flip may evict the op's cache slot */
     uint64_t* op_flat_jump = NULL;
     uint64_t cold_word; /* out-param for the cold-path reads, so f/j stay in registers */
     uint64_t inner_left;
@@ -1303,6 +1304,7 @@ static FJ_ALWAYS_INLINE int run_paged_loop_impl(MemoryObject* self, PyObject* re
                 goto cold_op_slow;
             }
             op_words = self->page_cache_words[op_slot];
+            op_valid_end = self->page_cache_valid_end[op_slot];
             f = op_words[op_offset];
         flip_word_ready:
 
@@ -1338,15 +1340,17 @@ static FJ_ALWAYS_INLINE int run_paged_loop_impl(MemoryObject* self, PyObject* re
         after_flip:
 
             /* read jump word (after the flip - the flip may modify it, including this
-               word). the hot lane re-reads through the cached slot: op_offset >= the
-               valid start already held for f, so only the end bound needs checking. */
+               word). the hot lane re-reads through the op's cached words: op_offset >= the
+               valid start already held for f, so only the end bound needs checking - against
+               the copy taken with op_words (a flip into another page that maps to the same
+               cache slot replaces the slot's valid range by that page's). */
             if (with_ring && op_flat_jump) {
                 j = *op_flat_jump;
                 if (flat_is_garbage(self, j) && flat_garbage_check(self, (uint64_t)(op_flat_jump - flat), &j) < 0) {
                     goto memory_or_python_error;
                 }
             } else if (op_words) {
-                if (op_offset + 1 >= self->page_cache_valid_end[op_slot]) {
+                if (op_offset + 1 >= op_valid_end) {
                     goto cold_jump_word_slow;
                 }
                 j = op_words[op_offset + 1];
